@@ -24,7 +24,8 @@
 (***************************************************************************)
 EXTENDS JournalRand, Json, Functions   \* Range from Functions
 
-CONSTANTS MaxTx, Shape      \* transactions per file (1..MaxTx); Shape = 0: random shape, else index into Shapes
+CONSTANTS MaxTx, Shape, Extra   \* transactions per file (1..MaxTx); Shape = 0: random shape, else index into Shapes;
+                                \* Extra: every file also gets the C15 transaction (three commodities out of balance, shared payee)
 
 FileNames == <<"main.journal", "a.journal", "b.journal", "sub/c.journal">>
 (* include paths as written by the including file (all including files live in the root directory) *)
@@ -83,10 +84,18 @@ WDecls(x) ==
     \o (IF Coin(3, x) THEN <<[dir |-> "account", acct |-> Pick(WAccounts), cmt |-> IF Coin(2, x) THEN <<WCmt(x)>> ELSE NoCmt]>> ELSE <<>>)
     \o (IF Coin(3, x) THEN <<[dir |-> "commodity", comm |-> Pick(WComms \ {0}), form |-> "plain", fmt |-> 1]>> ELSE <<>>)
 
+(* C15's precondition: a transaction with three commodities out of balance, under a payee every file
+   uses, with different postings (= a different payee template) in every file *)
+AcctOfFile == <<1, 3, 7, 9>>
+ExtraTx(i) == Tx(D(2024, 12, 30 - i), Text(2),
+                 << Post(AcctOfFile[i], <<Amt(i, 0, 4)>>), Post(AcctOfFile[(i % 4) + 1], <<[Amt(2, 0, 1) EXCEPT !.side = "L", !.sp = FALSE]>>),
+                    Post(11, <<Amt(3, 0, 7)>>) >>)
+
 WFile(sh, i, x) ==
     [k \in 1..Len(sh.inc[i]) |-> [dir |-> "include", path |-> IncIdx[sh.inc[i][k]]]]
     \o WDecls(x)
     \o LET n == Pick(1..MaxTx) IN [k \in 1..n |-> WTx(x + 1000 * k)]
+    \o (IF Extra THEN <<ExtraTx(i)>> ELSE <<>>)
 
 (* ---- aggregates of a set of files ------------------------------------------------------------- *)
 TxsOf(abs) == SelectSeq(abs, LAMBDA e : e.type = "tx")
